@@ -2,6 +2,8 @@
 # Copyright (c) 2022: Ludwig Schneider
 # See LICENSE for details
 
+import re
+
 from .atom import Atom
 from .bond import BondDescriptor
 from .core import _GLOBAL_RNG, BigSMILESbase, choose_compatible_weight
@@ -172,7 +174,9 @@ class SmilesToken(BigSMILESbase):
                     if len(elementA) > 0:
                         elements.append(elementA)
 
-                    preceding_characters = elementA
+                    # Ring-closure labels in front of the descriptor, and the bond symbol written
+                    # with such a label (C=1, C#%11), describe the ring bond, not the descriptor's bond.
+                    preceding_characters = re.sub(r"[-=#:]?(%\d\d|\d)", "", elementA)
                     if "(" in preceding_characters:
                         preceding_characters = preceding_characters[
                             preceding_characters.find("(") + 1 :
